@@ -41,7 +41,7 @@ static const char *PRE =
   "ex_i8: func i8\n  ret -5\nendfunc\nex_i16: func i16\n  ret -300\nendfunc\nex_i32: func i32\n  ret 70000\nendfunc\nex_i64: func i64\n  ret -1099511627776\nendfunc\n"
   "ex_f: func f\n  ret 2.5f\nendfunc\nex_d: func d\n  ret -0.75\nendfunc\nex_ld: func ld\n  ret 6.25L\nendfunc\nex_p: func p\n  ret 4096\nendfunc\n"
   "s0: i64 1229782938247303441\n";
-static const char *POST = "s1: i64 2459565876494606882\nlater: i64 77\nla1: lref L1\nla2: lref L2\nendmodule\n";
+static const char *POST = "s1: i64 2459565876494606882\nlater: i64 77\nla0: i64 5\n  lref L1\n  lref L2\nendmodule\n"; /* the reference label slots sit behind a non-lref section head on purpose */
 
 static uint64_t nsym2;
 void drv_init (int thorough) { build_syms (); max_len = thorough ? 3 : 3; nsym2 = 2ull * n_sy; (void) thorough; }
@@ -77,13 +77,15 @@ void drv_case (uint64_t idx) {
     MIR_load_module (mc.ctx, DLIST_HEAD (MIR_module_t, *MIR_get_module_list (mc.ctx))); MIR_load_external (mc.ctx, "ext1", &ext1_datum);
     if (eng == 0) MIR_link (mc.ctx, MIR_set_interp_interface, NULL); else { MIR_gen_init (mc.ctx); mc.gen_inited = 1; MIR_gen_set_optimize_level (mc.ctx, 2); MIR_link (mc.ctx, MIR_set_gen_interface, NULL); }
     mh_arm (0);
-    MIR_item_t s0 = item_by_name (&mc, "s0"), s1 = item_by_name (&mc, "s1"), later = item_by_name (&mc, "later"), f = item_by_name (&mc, "f"), la1 = item_by_name (&mc, "la1"), la2 = item_by_name (&mc, "la2");
+    MIR_item_t s0 = item_by_name (&mc, "s0"), s1 = item_by_name (&mc, "s1"), later = item_by_name (&mc, "later"), f = item_by_name (&mc, "f"), la0 = item_by_name (&mc, "la0"); uint8_t *la1a = (uint8_t *) la0->addr + 8, *la2a = (uint8_t *) la0->addr + 16;
     /* make label addresses defined: they are set up when the function is prepared for execution */
     int64_t (*fn) (void *) = f->addr; int64_t lab1 = 0, lab2 = 0;
     if (has_lref) {
-      if (eng == 0) { MIR_val_t r, a; a.a = la1->addr; mh_arm (1); if (setjmp (mh_err_jb) == 0) MIR_interp_arr (mc.ctx, f, &r, 1, &a); mh_arm (0); }
-      else fn (la1->addr);
-      memcpy (&lab1, la1->addr, 8); memcpy (&lab2, la2->addr, 8);
+      int64_t r1 = 0, r2 = 0;
+      if (eng == 0) { MIR_val_t r, a; a.a = la1a; r.i = 0; mh_arm (1); if (setjmp (mh_err_jb) == 0) { MIR_interp_arr (mc.ctx, f, &r, 1, &a); r1 = r.i; a.a = la2a; MIR_interp_arr (mc.ctx, f, &r, 1, &a); r2 = r.i; } mh_arm (0); }
+      else { r1 = fn (la1a); r2 = fn (la2a); }
+      if (r1 != 1 || r2 != 2) vp_fail ("lref-slot-not-usable", "jmpi through the label slots behind la0 returned %lld and %lld instead of 1 and 2", (long long) r1, (long long) r2);
+      memcpy (&lab1, la1a, 8); memcpy (&lab2, la2a, 8);
     }
     MIR_item_t it = DLIST_NEXT (MIR_item_t, s0); uint8_t *expect_addr = NULL; MIR_item_t prev = s0; int prev_size = 8;
     if (!s0->section_head_p) vp_fail ("section-head", "named sentinel s0 is not a section head");
@@ -110,7 +112,7 @@ void drv_case (uint64_t idx) {
     }
     if (it != s1) vp_fail ("items", "sentinel s1 does not follow the sequence");
     else { if (!s1->section_head_p) vp_fail ("section-head", "named sentinel s1 is not a section head"); int64_t v; memcpy (&v, s1->addr, 8); if (v != 2459565876494606882ll) vp_fail ("wrong-bytes", "sentinel s1 overwritten"); memcpy (&v, s0->addr, 8); if (v != 1229782938247303441ll) vp_fail ("wrong-bytes", "sentinel s0 overwritten"); }
-    if (has_lref) { int64_t r; if (eng == 0) { MIR_val_t rr, a; a.a = la2->addr; MIR_interp_arr (mc.ctx, f, &rr, 1, &a); r = rr.i; } else r = fn (la2->addr); if (r != 2) vp_fail ("lref-not-label", "jmpi through la2 returned %lld", (long long) r); }
+    if (has_lref) { int64_t r; if (eng == 0) { MIR_val_t rr, a; a.a = la2a; MIR_interp_arr (mc.ctx, f, &rr, 1, &a); r = rr.i; } else r = fn (la2a); if (r != 2) vp_fail ("lref-not-label", "jmpi through la2 returned %lld", (long long) r); }
     mh_close (&mc);
   }
   vp_count ("modules", 1); vp_nontrivial ();
